@@ -159,6 +159,42 @@ def rel(fn, e, pol, is_a, is_b):
     return None
 
 
+def returns_only(fn, q, value, edge_ok=None, src=None):
+    """every `return` reachable from point q yields the constant `value` — written as `return value;` or through a result
+    variable that holds `value` on that path (`res = value; goto done; ... done: return res;`). False when no return is
+    reachable. With src = the source point of the edge (src -> q) the exploration starts from the states in which that
+    edge can be taken (q may be a join point that other paths reach with other values)."""
+    cfg = fn.cfg
+    inits = [()]
+    if src is not None:
+        cfg.reach([cfg.entry])      # make sure the tables exist
+        if not hasattr(cfg, "_entry_states"):
+            cfg._entry_states = cfg.reach([cfg.entry], want_states=True)[1]
+        sts = cfg._entry_states.get(src, [])
+        if sts:
+            inits = [tuple((("const", d_), c_, frozenset((d_,))) for d_, c_ in st.items()) or (("none", 0, frozenset()),) for st in sts]
+    seen = False
+    for init in inits:
+        pts, states = cfg.reach([q], edge_ok=edge_ok, want_states=True, init_facts=init)
+        for r in fn.all(kind="ReturnStmt"):
+            p = cfg.pt(r)
+            if p not in pts or "val" not in fn.nodes[r] or fn.nodes[r].get("inl_ret"):
+                continue
+            seen = True
+            v = fn.nodes[r]["val"]
+            if fn.cv(v) is not None:
+                if fn.cv(v) != value:
+                    return False
+                continue
+            d = var_of(fn, v)
+            if d is None:
+                return False
+            vals = {st.get(d) for st in states.get(p, [])}
+            if vals != {value}:
+                return False
+    return seen
+
+
 def counted_loops(fn):
     """loops that count a local up by one: dict(loop, var, first, op, bound, body) for `for (T i = first; i OP bound; i++)`
     and for the same loop written with while (initialisation before the loop, increment at the end of the body).
